@@ -15,7 +15,7 @@ MAP_TRACED = ("/tracklib/algo/mapping.py", "/tracklib/algo/dynamics.py")
 C06_OPS = ("dist", "dist_all", "all_pairs", "prepare", "prepared")
 C07_OPS = ("path", "path_multi")
 C10_OPS = ("map", "remap")
-OTHER_OPS = ("add_edge", "reload", "index", "simplify", "sub_network")
+OTHER_OPS = ("add_edge", "reload", "index", "simplify", "sub_network", "set_weight", "save_prep", "load_prep", "rescale", "abs_again")
 
 
 def _wchoice(r, pairs):
@@ -106,6 +106,8 @@ class NetWorld(World):
                 "grid": r.choice([2, 3, 4]), "step": r.choice([10.0, 25.0, 7.5]),
                 "vertical_exact": r.choice([0, 0, 0.02]), "subnet": r.choice([0, 0.03, 0.1]),
                 "int_ids": (not road) and r.random() < 0.3,
+                "reweigh": r.choice([0, 0.05, 0.15]), "persist": r.choice([0, 0, 0.05, 0.12]),
+                "rescale": r.choice([0, 0.05, 0.15]),
                 "alt": r.choice([0.0, 0.0, 35.5]), "prep_cut": r.choice([None, None, 3.0, 10.0]),
                 # hub mode: few nodes, many parallel edges whose weights decrease in insertion order
                 # (many decrease-key operations and outdated entries in the priority queue)
@@ -128,6 +130,12 @@ class NetWorld(World):
         self.model = {}
         self.tracks = {}          # (session, slot) -> explicit track spec of the last mapping
         self.ecount = 0
+        # Network.save_prep / load_prep persist the prepared table with numpy.save / numpy.load: the
+        # name np of tracklib.core.network is a shim whose save / load go to the simulated disk
+        import sys as _sys
+        self._netmod = _sys.modules["tracklib.core.network"]
+        self._real_np = self._netmod.np
+        self._netmod.np = _NumpyShim(self._real_np, self.fs)
         # debug mode of mapOnNetwork appends to "observation.dat" in the working directory: the
         # working directory of the simulated process is /sim/cwd on the simulated disk
         import sys
@@ -139,6 +147,7 @@ class NetWorld(World):
             path if path.startswith("/") else "/sim/cwd/" + path, mode, *a, **k)
 
     def teardown(self):
+        self._netmod.np = self._real_np
         if self._mapping_open is None:
             self._mapping.__dict__.pop("open", None)
         else:
@@ -201,6 +210,22 @@ class NetWorld(World):
         if fam == "grow":
             if r.random() < 0.04 and not self.cfg["road"]:
                 return {"op": "simplify", "s": s, "tol": r.choice([0.5, 2.0, 5.0])}
+            u = r.random()
+            if u < self.cfg.get("reweigh", 0) and not self.cfg["road"]:
+                return {"op": "set_weight", "s": s, "e": r.randrange(64),
+                        "w": r.choice([0, 0.25, 0.5, 1, 2, 3, 4, 6, 10])}
+            if u < self.cfg.get("reweigh", 0) + self.cfg.get("persist", 0):
+                k = r.random()
+                st = {"op": "save_prep" if k < 0.45 else "load_prep", "s": s, "slot": r.randrange(2)}
+                if k >= 0.45 and r.random() < max(self.cfg["fault_rate"], 0.15):
+                    st["fault"] = {"kind": r.choice(["open_error", "read_error"]), "at": 1,
+                                   "errno": r.choice([2, 13, 5])}
+                elif k < 0.45 and r.random() < self.cfg["fault_rate"]:
+                    st["fault"] = {"kind": r.choice(["open_error", "write_error"]), "at": 1, "errno": 28}
+                return st
+            if self.cfg["road"] and r.random() < self.cfg.get("rescale", 0):
+                return {"op": r.choice(["rescale", "abs_again", "abs_again"]), "s": s,
+                        "h": r.choice([2.0, 0.5, 4.0]), "twice": r.random() < 0.5}
             if r.random() < self.cfg.get("subnet", 0):
                 return {"op": "sub_network", "s": s, "a": r.randrange(64), "cut": self._gen_cut(r, m),
                         "mode": r.choice(["TOPOLOGIC", "TOPOLOGIC", "GEOMETRIC"]),
@@ -358,7 +383,7 @@ class NetWorld(World):
         from tracklib.core import Network
         s = st.get("s", 0)
         self.real[s] = Network()
-        self.model[s] = {"nodes": {}, "edges": [], "fw": None, "index": None, "prepared": None,
+        self.model[s] = {"nodes": {}, "edges": [], "fw": None, "index": None, "prepared": None, "ptable": None,
                          "grown_since_prepare": False, "exact": True, "all_abs": True}
 
     def op_add_edge(self, st):
@@ -392,6 +417,7 @@ class NetWorld(World):
         m["nodes"].setdefault(b, list(pb))
         m["edges"].append({"id": st["id"], "s": a, "t": b, "o": st["o"], "w": w, "pts": pts})
         m["fw"] = None
+        m["version"] = m.get("version", 0) + 1
         if st["w"] is None:
             m["exact"] = False
         if not st.get("abs"):
@@ -483,8 +509,8 @@ class NetWorld(World):
 
     def _cmp_table(self, m, got, exp, where):
         if set(got) != set(exp):
-            extra = sorted(set(got) - set(exp))[:4]
-            missing = sorted(set(exp) - set(got))[:4]
+            extra = sorted(set(got) - set(exp), key=repr)[:4]
+            missing = sorted(set(exp) - set(got), key=repr)[:4]
             self.fail("C06", "table.pairs", where + ": set of ordered pairs in the table",
                       {"missing": [list(k) + [exp[k]] for k in missing]},
                       {"extra": [list(k) + [got[k]] for k in extra]})
@@ -521,6 +547,9 @@ class NetWorld(World):
         self._cmp_table(m, rv, exp, "all_shortest_distances(cut=%s)" % cut)
 
     def op_prepare(self, st):
+        """prepare(cut) accumulates into the network's table (documented): every pair whose
+        current distance is within the cut-off is (re)written with its current distance, every
+        other entry stays what it was -- the model keeps the very same table."""
         net, m = self._sess(st)
         cut = st["cut"]
         _, exc = self.call(net.prepare, cut, False)
@@ -528,17 +557,13 @@ class NetWorld(World):
             return self._unexpected("C06", exc, "prepare(cut=%s)" % cut)
         if m["prepared"] is None:
             m["prepared"] = cut
-            m["grown_since_prepare"] = False
-        elif m["grown_since_prepare"]:
-            self.probe("prepare_again_after_growth_not_judged")
-            m["prepared"] = max(m["prepared"], cut)
-            return
+            m["ptable"] = {}
         else:
-            self.probe("prepare_accumulates")
+            self.probe("prepare_again_after_change" if m["grown_since_prepare"] else "prepare_accumulates")
             m["prepared"] = max(m["prepared"], cut)
-        # documented accumulation: union of the tables, i.e. the table of the largest cut-off
-        self._cmp_table(m, dict(net.DISTANCES), self._pairs(m, m["prepared"]),
-                        "prepared table after prepare(cut=%s)" % cut)
+        m["ptable"].update(self._pairs(m, cut))
+        m["grown_since_prepare"] = False
+        self._cmp_table(m, dict(net.DISTANCES), m["ptable"], "prepared table after prepare(cut=%s)" % cut)
 
     def op_prepared(self, st):
         net, m = self._sess(st)
@@ -550,12 +575,11 @@ class NetWorld(World):
             return self._unexpected("C06", exc, "prepared_shortest_distance")
         self.observed(rv)
         if m["grown_since_prepare"]:
-            self.probe("stale_prepared")          # stale by design: recorded, not judged
-            return
-        e = self._fw(m)[(a, b)]
-        exp = e if e <= m["prepared"] else 1e300
+            self.probe("stale_prepared")          # stale by design: the answer is what the table holds
+        exp = m["ptable"].get((a, b), 1e300)
         if not self._deq(m, rv, exp):
-            self.fail("C06", "prepared.value", "prepared_shortest_distance(%s, %s)" % (a, b), exp, rv)
+            self.fail("C06", "prepared.value", "prepared_shortest_distance(%s, %s): not the entry of the prepared "
+                      "table" % (a, b), exp, rv)
 
     # ------------------------------------------------------------------ C07 op
     def op_path(self, st):
@@ -713,8 +737,8 @@ class NetWorld(World):
         self.real[st.get("s", 0)] = new
         for e in m["edges"]:
             e["w"] = plen(e["pts"])
-        m.update({"fw": None, "index": None, "prepared": None, "grown_since_prepare": False, "exact": False,
-                  "all_abs": True})
+        m.update({"fw": None, "index": None, "prepared": None, "ptable": None, "grown_since_prepare": False,
+                  "exact": False, "all_abs": True})
         for k in [k for k in self.tracks if k[0] == st.get("s", 0)]:
             del self.tracks[k]
         self.probe("network_loaded_from_disk")
@@ -723,6 +747,149 @@ class NetWorld(World):
         exp = [[e["id"], e["s"], e["t"], e["o"]] for e in m["edges"]]
         if got != exp:
             self.fail("C06", "reload.structure", "edges of the reloaded network", exp, got)
+
+    def op_set_weight(self, st):
+        """The caller re-weighs an edge (public attribute): a road gets slower or faster."""
+        net, m = self._sess(st)
+        if not m["edges"] or not m["exact"] or m.get("shared"):
+            raise Skip()            # (an extracted sub-network shares its Edge objects with the parent)
+        e = m["edges"][st["e"] % len(m["edges"])]
+        old = e["w"]
+        net.getEdge(e["id"]).weight = st["w"]
+        e["w"] = st["w"]
+        m["fw"] = None
+        m["version"] = m.get("version", 0) + 1
+        if m["prepared"] is not None:
+            m["grown_since_prepare"] = True
+        self.probe("edge_weight_raised" if st["w"] > old else "edge_weight_lowered_or_kept")
+        self.observed([e["id"], st["w"]])
+
+    def _prep_path(self, st):
+        return "/sim/prep_%d_%d" % (st.get("s", 0), st.get("slot", 0))
+
+    def _armed(self, st):
+        self.fs.plan.arm(st.get("fault"))
+        if st.get("fault"):
+            self.stats["fault_armed:" + st["fault"]["kind"]] += 1
+
+    def _fired(self):
+        fired, kind = self.fs.plan.fired, self.fs.plan.kind
+        if fired:
+            self.stats["fault_fired:" + kind] += 1
+        self.fs.plan.clear()
+        return fired
+
+    def op_save_prep(self, st):
+        """Network.save_prep: the prepared table goes to the simulated disk."""
+        net, m = self._sess(st)
+        if m["prepared"] is None:
+            raise Skip()
+        path = self._prep_path(st)
+        self._armed(st)
+        _, exc = self.call(net.save_prep, path)
+        fired = self._fired()
+        self.files = getattr(self, "files", {})
+        if exc is not None:
+            self.files.pop(path, None)
+            if fired:
+                return "fault"
+            return self._unexpected("C06", exc, "save_prep")
+        # what the file holds: the table as it is now (judged when it was filled)
+        self.files[path] = {"owner": st.get("s", 0), "cut": m["prepared"], "table": dict(m["ptable"]),
+                            "stale": m["grown_since_prepare"]}
+        self.probe("prepared_table_saved")
+
+    def op_load_prep(self, st):
+        """Network.load_prep of a table this session saved earlier.  When the load fails (file
+        missing, unreadable) the table the network already has must stay what it was."""
+        net, m = self._sess(st)
+        path = self._prep_path(st)
+        f = getattr(self, "files", {}).get(path)
+        fault = st.get("fault")
+        if f is None and not fault:
+            fault = {"kind": "open_error", "at": 1, "errno": 2}       # never saved: the file does not exist
+        if f is not None and f["owner"] != st.get("s", 0):
+            raise Skip()
+        if m["prepared"] is None and (f is None or fault):
+            raise Skip()
+        self._armed(dict(st, fault=fault) if fault else st)
+        _, exc = self.call(net.load_prep, path)
+        fired = self._fired()
+        if exc is not None:
+            if fired or f is None:
+                self.probe("load_of_prepared_table_failed")
+                return "fault"                # model unchanged: later prepared distances are judged as before
+            return self._unexpected("C06", exc, "load_prep")
+        if fired:
+            self.probe("fault_swallowed_by_call")
+        if f is None:
+            self.fail("C06", "load_prep.missing", "load_prep of a file that was never written returned normally",
+                      "an exception", "normal return")
+            return
+        m["prepared"] = f["cut"]
+        m["ptable"] = dict(f["table"])
+        m["grown_since_prepare"] = True           # (only a label for the probes: the table is modelled exactly)
+        self.probe("prepared_table_loaded")
+        self._cmp_table(m, dict(net.DISTANCES), m["ptable"], "prepared table after load_prep")
+
+    def op_abs_again(self, st):
+        """computeAbsCurv once more on every edge geometry (a no-op by contract)."""
+        from tracklib.algo.cinematics import computeAbsCurv
+        net, m = self._sess(st)
+        if not m["edges"] or not m["all_abs"]:
+            raise Skip()
+        for e in m["edges"]:
+            for _ in range(2 if st.get("twice") else 1):
+                _, exc = self.call(computeAbsCurv, net.getEdge(e["id"]).geom)
+                if exc is not None:
+                    return self._unexpected("C10", exc, "computeAbsCurv on an edge geometry")
+        self.probe("abs_curv_recomputed_on_edge_geometries")
+
+    def op_rescale(self, st):
+        """The caller changes the unit of the whole network in place (km -> m): every
+        geometry and node position is scaled, curvilinear abscissas are removed and computed
+        again, weights are set to the new lengths; index and prepared table are rebuilt later."""
+        from tracklib.algo.cinematics import computeAbsCurv
+        net, m = self._sess(st)
+        if not m["edges"] or not m["all_abs"] or m.get("shared") or not self.cfg["road"]:
+            raise Skip()
+        h = st["h"]
+        # position objects of the geometries (a network read from a file uses the end vertex of an
+        # edge geometry as the coordinate object of the node): every object is scaled exactly once
+        in_geom = set(id(o.position) for e in m["edges"] for o in net.getEdge(e["id"]).geom)
+        if len(in_geom) != sum(len(e["pts"]) for e in m["edges"]):
+            raise Skip()            # geometries share vertex objects with each other
+        seen = set()
+        for e in m["edges"]:
+            ed = net.getEdge(e["id"])
+            g = ed.geom
+            _, exc = self.call(g.scale, h)
+            if exc is not None:
+                return self._unexpected("C10", exc, "Track.scale on an edge geometry")
+            for nd in (ed.source, ed.target):
+                if nd.id not in seen:
+                    seen.add(nd.id)
+                    if id(nd.coord) not in in_geom:
+                        nd.coord.scale(h)
+            _, exc = self.call(g.removeAnalyticalFeature, "abs_curv")
+            if exc is None:
+                _, exc = self.call(computeAbsCurv, g)
+            if exc is not None:
+                return self._unexpected("C10", exc, "recomputing abs_curv on a scaled edge geometry")
+            e["pts"] = [[o.position.getX(), o.position.getY()] for o in g]      # adopted (scaling is not C10's subject)
+            e["w"] = plen(e["pts"])
+            ed.weight = g.length()
+        for v in list(m["nodes"]):
+            c = net.getNode(v).coord
+            m["nodes"][v] = [c.getX(), c.getY()]
+        m.update({"fw": None, "index": None, "prepared": None, "ptable": None, "grown_since_prepare": False,
+                  "exact": False})
+        net.spatial_index = None
+        net.DISTANCES = None
+        m["scale"] = m.get("scale", 1.0) * h
+        for k in [k for k in self.tracks if k[0] == st.get("s", 0)]:
+            del self.tracks[k]
+        self.probe("network_rescaled_in_place")
 
     def op_sub_network(self, st):
         """Network.sub_network runs a forward search on the parent and builds a second
@@ -749,7 +916,7 @@ class NetWorld(World):
         ids, nids = list(rv.getEdgesId()), list(rv.getNodesId())
         by_id = {e["id"]: e for e in m["edges"]}
         if any(i not in by_id for i in ids) or len(set(ids)) != len(ids):
-            self.fail("C06", "subnet.edges", "sub_network returned edges the parent does not have", sorted(by_id), ids)
+            self.fail("C06", "subnet.edges", "sub_network returned edges the parent does not have", sorted(by_id, key=repr), ids)
             return
         self.probe("sub_network_extracted")
         self.observed([len(ids), len(nids)])
@@ -757,13 +924,13 @@ class NetWorld(World):
         if to is None or to == st.get("s", 0) or not ids:
             return
         if any(v not in m["nodes"] for v in nids):
-            self.fail("C06", "subnet.nodes", "sub_network returned nodes the parent does not have", sorted(m["nodes"]), nids)
+            self.fail("C06", "subnet.nodes", "sub_network returned nodes the parent does not have", sorted(m["nodes"], key=repr), nids)
             return
         import copy as _copy
         self.real[to] = rv
         self.model[to] = {"nodes": {v: list(m["nodes"][v]) for v in nids},
                           "edges": [_copy.deepcopy(by_id[i]) for i in ids], "fw": None, "index": None,
-                          "prepared": None, "grown_since_prepare": False, "exact": m["exact"],
+                          "prepared": None, "ptable": None, "grown_since_prepare": False, "exact": m["exact"],
                           "all_abs": m["all_abs"], "shared": True}
         m["shared"] = True
         for k in [k for k in self.tracks if k[0] == to]:
@@ -978,3 +1145,40 @@ def simfs_random(i, j, step):
     if h[0] & 1:
         return (0.0, 0.0)
     return ((h[1] / 255.0) * 2 - 1, (h[2] / 255.0) * 2 - 1)
+
+
+class _NumpyShim:
+    """The name `np` seen by tracklib.core.network: save / load of the prepared table go to
+    the simulated disk (fault plan included), everything else is the real numpy."""
+
+    def __init__(self, real, fs):
+        self._real = real
+        self._fs = fs
+        self._blobs = {}
+
+    def __getattr__(self, name):
+        return getattr(self._real, name)
+
+    def save(self, filename, obj, *a, **k):
+        import copy
+        import errno
+        path = filename if filename.endswith(".npy") else filename + ".npy"
+        if self._fs.plan.tick("open"):
+            raise OSError(self._fs.plan.errno, "cannot open", path)
+        self._blobs.pop(path, None)                      # truncation at open
+        if self._fs.plan.tick("write"):
+            raise OSError(self._fs.plan.errno or errno.ENOSPC, "write failed", path)
+        self._blobs[path] = copy.deepcopy(obj)
+        self._fs.bytes_written += 1
+
+    def load(self, filename, *a, **k):
+        import copy
+        import pickle
+        path = filename
+        if self._fs.plan.tick("open"):
+            raise OSError(self._fs.plan.errno, "cannot open", path)
+        if path not in self._blobs:
+            raise FileNotFoundError(2, "No such file or directory", path)
+        if self._fs.plan.tick("read"):
+            raise pickle.UnpicklingError("pickle data was truncated")
+        return self._real.array(copy.deepcopy(self._blobs[path]), dtype=object)
